@@ -61,11 +61,13 @@ Section Conc.
   Lemma reachable_trans s0 s1 s2 : Reachable s0 s1 -> Reachable s1 s2 -> Reachable s0 s2.
   Proof. intros [a <-] [b <-]. exists (a ++ b). apply run_app. Qed.
 
-  (* ---- bounded work: a variant that every effective "working" step decreases and every other
-          step raises by at most K bounds the number of working steps of ANY schedule ---- *)
+  (* ---- bounded work: a variant that (on states satisfying an inductive invariant I) every effective
+          "working" step decreases and every other step raises by at most K bounds the number of working
+          steps of ANY schedule ---- *)
   Variable working : tid -> bool.
   Variable V : state -> nat.
   Variable K : nat.
+  Variable I : state -> Prop.
 
   (* number of effective (enabled) working steps taken along a schedule *)
   Fixpoint work_steps (s : state) (sched : list tid) : nat :=
@@ -82,20 +84,22 @@ Section Conc.
     | t :: rest => (if working t then 0 else 1) + other_steps rest
     end.
 
+  Hypothesis I_inductive : Inductive_inv I.
   Hypothesis working_decreases :
-    forall s t s', step s t = Some s' -> working t = true -> V s' < V s.
+    forall s t s', I s -> step s t = Some s' -> working t = true -> V s' < V s.
   Hypothesis other_bounded :
-    forall s t s', step s t = Some s' -> working t = false -> V s' <= V s + K.
+    forall s t s', I s -> step s t = Some s' -> working t = false -> V s' <= V s + K.
 
-  Lemma bounded_work : forall sched s,
+  Lemma bounded_work : forall sched s, I s ->
     work_steps s sched + V (run s sched) <= V s + K * other_steps sched.
   Proof.
-    induction sched as [|t r IH]; intros s; simpl; [lia|].
-    specialize (IH (step1 s t)). unfold step1 in *.
+    induction sched as [|t r IH]; intros s Hs; simpl; [lia|].
+    pose proof (step1_inv I I_inductive s t Hs) as Hs'.
+    specialize (IH (step1 s t) Hs'). unfold step1 in *.
     destruct (step s t) as [s'|] eqn:E.
     - destruct (working t) eqn:W.
-      + pose proof (working_decreases _ _ _ E W). lia.
-      + pose proof (other_bounded _ _ _ E W). lia.
+      + pose proof (working_decreases _ _ _ Hs E W). lia.
+      + pose proof (other_bounded _ _ _ Hs E W). lia.
     - destruct (working t); lia.
   Qed.
 End Conc.
